@@ -387,6 +387,15 @@ class Check:
         d[str(key)] = d.get(str(key), 0) + n
 
     # --- proof obligations
+    def corr_buildable(self, targets):
+        """When a proof obligation broke (e.g. the translator refused the new source), the correspondence may still be evaluable:
+        it needs only the hand-written model. True if those targets build."""
+        try:
+            ok, _ = coq_make(targets)
+            return ok
+        except Exception:
+            return False
+
     def proof_obligations(self, extra_targets=None):
         """Build the Coq development needed for this property, scan for forbidden
         words, compile Props/<prop>.v and record Print Assumptions.  Returns
